@@ -51,12 +51,15 @@ Definition mf_payload (c f len : N) (hm : bool) : option (N * short) :=
     end
   else if N.eqb c 65535 then
     match f with 42 => Some (2, PanicShort) | 43 => Some (4, PanicShort) | _ => None end
+  else if N.eqb c 0 then
+    match f with 16 | 17 => Some (4, ErrShort) | _ => None end
   else None.
 
 (* which (class, field) pairs end in a returned error rather than a nil-interface panic *)
 Definition mf_missing_is_error (c f : N) : bool :=
   N.eqb c 32768 ||
-  (N.eqb c 1 && negb (existsb (N.eqb f) [16; 26; 28; 29; 30; 34; 35; 36; 38; 39; 104])).
+  (N.eqb c 1 && negb (existsb (N.eqb f) [16; 26; 28; 29; 30; 34; 35; 36; 38; 39; 104])) ||
+  negb (N.eqb c 1 || N.eqb c 65535).
 
 Definition take_payload (w : N) (s : short) (d : list byte) : res (list byte) :=
   match s with
@@ -376,7 +379,7 @@ Section WithParse.
   Definition parse_body (d : list byte) : res tree :=
     (ty <- at_ d 1 ;;
      if N.eqb ty 0 then
-       hv <- ofheader_lenient d ;; es <- dec_hello_elems (S (length d)) d 8 ;; Ok (T KHello hv es)
+       hv <- dec_ofheader d ;; es <- dec_hello_elems (S (length d)) d 8 ;; Ok (T KHello hv es)
      else if N.eqb ty 1 then
        hv <- ofheader_lenient d ;; et <- uat 2 d 8 ;; c <- uat 2 d 10 ;;
        if N.eqb et 65535 then
